@@ -114,7 +114,7 @@ def check(run):
                 run.unrecognised('R6-FLOW', 'byref', construct + ' -> ' + str(fl.dest), loc, 'handler passed by non-const reference to ' + str(fl.dest))
             elif fl.kind == 'invoke':
                 invoke_fns.setdefault(fn.key(), []).append(fl)
-    run.floor('R6-FLOW', 60)
+    run.floor('R6-FLOW', 42)
 
     # ---- B: never inline -------------------------------------------------
     run.clause('R6-INLINE a handler is invoked only inside a completion context (closure consumed by post/timer), and no such context is reachable by direct calls from an initiating function')
@@ -194,7 +194,7 @@ def check(run):
                 else:
                     run.violation('R6-SUPERSEDE', s, construct, f.loc(),
                                   'public function stores into / clears %s without first aborting an outstanding handler: a second operation of the same kind silently discards the first handler' % s)
-    run.floor('R6-DISCARD', 30)
+    run.floor('R6-DISCARD', 21)
 
     # ---- D/E: teardown ---------------------------------------------------
     run.clause('R6-ABORT at the exit of cancel/close/destructor every slot of the class is empty, and those paths bind operation_aborted')
@@ -237,7 +237,7 @@ def check(run):
                 txt = closure_text(fx, fn, fl)
                 run.check('operation_aborted' in txt, 'R6-ABORT', 'aborted-ec', '%s: %s' % (fn.norm, fl.entity.split('::')[-1]), fn.loc(fl.node),
                           'abort path completes the handler with something other than operation_aborted: ' + txt[:120], 'bound error is operation_aborted')
-    run.floor('R6-ABORT', 30)
+    run.floor('R6-ABORT', 21)
 
     # timer: cancel / re-arm / destroy
     run.clause('timer: re-arming and destruction abort the outstanding wait on every path (cancel() on all paths); its typestate rules are C03')
